@@ -9,6 +9,7 @@ package c12
 
 import (
 	"fmt"
+	"net"
 	"reflect"
 	"sort"
 	"strconv"
@@ -16,6 +17,7 @@ import (
 	"testing"
 	"time"
 
+	"github.com/blinklabs-io/gouroboros/muxer"
 	"github.com/blinklabs-io/gouroboros/protocol"
 	rt "github.com/blinklabs-io/gouroboros/verifrt"
 	vtime "github.com/blinklabs-io/gouroboros/verifrt/vtime"
@@ -28,7 +30,9 @@ import (
 type scen struct {
 	kind  string // "seq" (one caller), "race" (two callers), "illegal" (conforming waited prefix + one non-permitted message)
 	calls []int  // alphabet index of every call, slot = position
-	wait  []bool // seq/illegal: before call k, wait until the replies to the calls so far were handled
+	wait  []bool // seq/illegal: before call k, wait until the replies to the calls so far were handled ('~')
+	drain []bool // seq: before call k, wait (public API WaitSendQueueDrained) until sendLoop has taken the calls so far ('^'): call k starts a new batch
+	slow  bool   // the peer is a slow reader: writes to the connection block (TCP back-pressure) until every call was issued
 	owner []int  // race: which goroutine (0/1) issues slot k (each goroutine issues its slots in slot order, back-to-back)
 }
 
@@ -39,6 +43,31 @@ func clone(m protocol.Message) protocol.Message {
 	n := reflect.New(v.Type().Elem())
 	n.Elem().Set(v.Elem())
 	return n.Interface().(protocol.Message)
+}
+
+// gatedConn models TCP back-pressure on top of the scheduler's connection (whose writes never
+// block): while the window is shut every Write blocks, as it does on a socket whose peer does
+// not read. Closing the window channel opens it for good.
+type gatedConn struct {
+	*rt.Conn
+	window chan struct{}
+}
+
+func (c *gatedConn) Write(b []byte) (int, error) {
+	if c.window != nil {
+		rt.Recv2("h:window?", c.window)
+	}
+	return c.Conn.Write(b)
+}
+
+// newEndpoint is s2lib.NewEndpoint for an arbitrary net.Conn.
+func newEndpoint(conn net.Conn, cfg protocol.ProtocolConfig) *s2lib.Endpoint {
+	m := muxer.New(conn)
+	ep := &s2lib.Endpoint{Mux: m, Errs: make(chan error, 10)}
+	cfg.Muxer = m
+	cfg.ErrorChan = ep.Errs
+	ep.Proto = protocol.New(cfg)
+	return ep
 }
 
 type shared struct {
@@ -89,9 +118,12 @@ func (sc scen) name(m *model) string {
 	default:
 		for k, c := range sc.calls {
 			if k > 0 {
-				if sc.wait[k] {
+				switch {
+				case sc.wait[k]:
 					sb.WriteString("~")
-				} else {
+				case sc.drain != nil && sc.drain[k]:
+					sb.WriteString("^")
+				default:
 					sb.WriteString("+")
 				}
 			}
@@ -105,7 +137,11 @@ func (sc scen) name(m *model) string {
 	if m.last {
 		pol = "last"
 	}
-	return fmt.Sprintf("%s|%s|%s|peer-%s", m.id, sc.kind, sb.String(), pol)
+	kind := sc.kind
+	if sc.slow {
+		kind += "-slowreader"
+	}
+	return fmt.Sprintf("%s|%s|%s|peer-%s", m.id, kind, sb.String(), pol)
 }
 
 func scenario(id string, sc scen, last bool) e1lib.Scenario {
@@ -136,7 +172,7 @@ func scenario(id string, sc scen, last bool) e1lib.Scenario {
 		cfg := p.Config
 		msgs := make([]protocol.Message, n)
 		for k, c := range sc.calls {
-			msgs[k] = clone(p.Alphabet[c].Msg)
+			msgs[k] = clone(m.alpha[c].Msg)
 		}
 		// every transition of a copy of the state map logs when it is taken (the MatchFunc
 		// runs inside stateLoop exactly when the transition is evaluated)
@@ -170,7 +206,12 @@ func scenario(id string, sc scen, last bool) e1lib.Scenario {
 			rt.Send("h:got", got, struct{}{})
 			return nil
 		}
-		ep := s2lib.NewEndpoint(a, cfg)
+		// a slow reader: the local side's connection writes block until the window opens
+		var window chan struct{}
+		if sc.slow {
+			window = make(chan struct{})
+		}
+		ep := newEndpoint(&gatedConn{Conn: a, window: window}, cfg)
 		errDone := make(chan struct{})
 		stopped := make(chan struct{})
 		rt.Go("errs", func() {
@@ -260,6 +301,11 @@ func scenario(id string, sc scen, last bool) e1lib.Scenario {
 						}
 					}
 				}
+				if sc.drain != nil && sc.drain[k] {
+					// the caller hands over the next message once the previous one left the send
+					// queue (it is then sent in a segment of its own)
+					ep.Proto.WaitSendQueueDrained(20 * time.Millisecond)
+				}
 				if sc.kind == "illegal" && k == len(sc.calls)-1 && k > 0 {
 					// the caller issues the non-permitted message long after the conversation
 					// went quiet: it is the first message sendLoop takes, not part of a batch
@@ -267,6 +313,11 @@ func scenario(id string, sc scen, last bool) e1lib.Scenario {
 				}
 				issue(k)
 			}
+		}
+		if sc.slow {
+			// the peer starts reading only now
+			vtime.Sleep(10 * time.Millisecond)
+			rt.Close("h:window", window)
 		}
 		// let everything that can happen happen (no state timeout is shorter than 5 s)
 		vtime.Sleep(100 * time.Millisecond)
@@ -535,6 +586,11 @@ func gaps(n int) [][]bool {
 	return out
 }
 
+var streamConfigs = []string{
+	"block-fetch/NtN/server",
+	"chain-sync/NtN/server",
+}
+
 var configs = []string{
 	"chain-sync/NtN/client",
 	"block-fetch/NtN/client",
@@ -567,7 +623,9 @@ func uniform(w []bool) bool {
 //	  non-permitted first message bound 2 (chain-sync all, others the first), after a waited
 //	  prefix bound 1
 //
-// The per-scenario wall budgets are only a guard against runaway scenarios on a loaded machine.
+// Streaming servers (block-fetch, chain-sync; responder "first"): every conforming history,
+// all-'+' and all-'^', normal connection and slow reader: bound 1; thorough: block-fetch server
+// on the normal connection up to 3 calls bound 2.
 func generate(thorough bool) []e1lib.Scenario {
 	var heavy, light []e1lib.Scenario
 	maxLen := 3
@@ -582,7 +640,7 @@ func generate(thorough bool) []e1lib.Scenario {
 			add := func(sc scen, bound int) {
 				s := scenario(id, sc, last)
 				s.MinB, s.MaxB = bound, bound
-				s.Budget = []time.Duration{2 * time.Minute, 10 * time.Minute, time.Hour}[bound]
+				s.Budget = []time.Duration{20 * time.Second, 90 * time.Second, 15 * time.Minute}[bound] // CPU time of the worker
 				if bound == 2 {
 					heavy = append(heavy, s)
 				} else {
@@ -678,6 +736,45 @@ func generate(thorough bool) []e1lib.Scenario {
 						add(sc, 2)
 					} else {
 						add(sc, 1)
+					}
+				}
+			}
+		}
+	}
+	// streaming servers: the local side keeps agency over several sends (block-fetch server:
+	// StartBatch, Block*, BatchDone; chain-sync server: AwaitReply, RollForward), so that
+	// consecutive batches are assembled while earlier segments may still wait in the muxer:
+	// calls back-to-back ('+') or each after the previous left the send queue ('^', a batch of
+	// its own), on a normal connection and towards a slow reader (connection writes block
+	// until every call was issued)
+	for _, id := range streamConfigs {
+		sh := getShared(id)
+		m := sh.mod[false]
+		for _, h := range m.conforming(maxLen) {
+			n := len(h)
+			for _, drained := range []bool{false, true} {
+				if n == 1 && drained {
+					continue
+				}
+				for _, slow := range []bool{false, true} {
+					sc := scen{kind: "seq", calls: h, wait: make([]bool, n), slow: slow}
+					if drained {
+						sc.drain = make([]bool, n)
+						for k := 1; k < n; k++ {
+							sc.drain[k] = true
+						}
+					}
+					bound := 1
+					if thorough && !slow && n <= 3 && strings.HasPrefix(id, "block-fetch") {
+						bound = 2
+					}
+					s := scenario(id, sc, false)
+					s.MinB, s.MaxB = bound, bound
+					s.Budget = []time.Duration{20 * time.Second, 90 * time.Second, 15 * time.Minute}[bound]
+					if bound == 2 {
+						heavy = append(heavy, s)
+					} else {
+						light = append(light, s)
 					}
 				}
 			}
